@@ -28,6 +28,14 @@ import (
 //       script = ";"-separated A<i>/<addr>/<names>; after every step both storages are observed
 //       (ByAddr on qaddrs, ByName on qnames, sorted RangeNames / RangeAddrs, Equal).
 //   std.scanlines <stream>     bufio.Scanner + ScanLines on a bytes.Reader
+//   C08.std.scan <stream> <script> <bufcap>
+//       the REAL bufio.Scanner (ScanLines; s.Buffer(make([]byte, 0, bufcap), bufio.MaxScanTokenSize)
+//       as in Parse) over a scripted reader.  script = ","-separated read results, "_" = empty:
+//         <n>        (n, nil)        <n>/e   (n, io.EOF)        <n>/<id>   (n, error number id)
+//       each optionally followed by "*<count>" (repeated).  One Read(p) consumes the head (n, err):
+//       n <= len(p): the next n bytes with err; n > len(p): the next len(p) bytes with a nil error,
+//       and (n - len(p), err) stays at the head.  An exhausted script answers (0, io.EOF).
+//       The model is GolibsVerif/Go/Scanner.lean (scanStream).
 
 // ---- readers
 
@@ -93,6 +101,292 @@ type namedFragReader struct {
 func (r namedFragReader) Name() string { return r.name }
 
 var fragModes = []string{"whole", "byte", "chunks", "zeros", "data+eof"}
+
+// ---- scripted reader (C08.std.scan)
+
+type scriptErr struct{ id int }
+
+func (e *scriptErr) Error() string { return fmt.Sprintf("verif: scripted read error %d", e.id) }
+
+type scriptEntry struct {
+	n   int
+	err error
+}
+
+// scriptReader answers Read by its script; see the header of this file.
+type scriptReader struct {
+	data   []byte
+	pos    int
+	script []scriptEntry
+	// what the scanner actually saw, for the direct oracle
+	zeros    int  // current run of (0, nil) results
+	stalled  bool // a run of more than 100 (0, nil) results was returned
+	firstErr error
+}
+
+func (r *scriptReader) deliver(p []byte, k int) int {
+	k = min(k, len(r.data)-r.pos)
+	copy(p, r.data[r.pos:r.pos+k])
+	r.pos += k
+	return k
+}
+
+func (r *scriptReader) note(n int, err error) (int, error) {
+	if err != nil {
+		if r.firstErr == nil {
+			r.firstErr = err
+		}
+		return n, err
+	}
+	if n == 0 {
+		r.zeros++
+		if r.zeros > 100 {
+			r.stalled = true
+		}
+	} else {
+		r.zeros = 0
+	}
+	return n, err
+}
+
+func (r *scriptReader) Read(p []byte) (n int, err error) {
+	if len(p) == 0 {
+		return 0, nil
+	}
+	if len(r.script) == 0 {
+		return r.note(0, io.EOF)
+	}
+	e := &r.script[0]
+	if e.n <= len(p) {
+		k := r.deliver(p, e.n)
+		r.script = r.script[1:]
+		return r.note(k, e.err)
+	}
+	k := r.deliver(p, len(p))
+	e.n -= len(p)
+	return r.note(k, nil)
+}
+
+func parseScanScript(s string) (script []scriptEntry) {
+	if s == "_" {
+		return nil
+	}
+	for _, ent := range strings.Split(s, ",") {
+		cnt := 1
+		if i := strings.IndexByte(ent, '*'); i >= 0 {
+			cnt = atoi(ent[i+1:])
+			ent = ent[:i]
+		}
+		var e scriptEntry
+		if i := strings.IndexByte(ent, '/'); i >= 0 {
+			if ent[i+1:] == "e" {
+				e.err = io.EOF
+			} else {
+				e.err = &scriptErr{id: atoi(ent[i+1:])}
+			}
+			ent = ent[:i]
+		}
+		e.n = atoi(ent)
+		for ; cnt > 0; cnt-- {
+			script = append(script, e)
+		}
+	}
+	return script
+}
+
+func showScanErr(err error) string {
+	var se *scriptErr
+	switch {
+	case err == nil:
+		return "nil"
+	case stderrors.As(err, &se):
+		return fmt.Sprintf("reader%d", se.id)
+	case err == bufio.ErrTooLong:
+		return "toolong"
+	case err == io.ErrNoProgress:
+		return "noprogress"
+	case err == bufio.ErrBadReadCount:
+		return "badreadcount"
+	}
+	return "other"
+}
+
+// c08LinesShort: every line (its CR included, its LF excluded) is shorter than lim.
+func c08LinesShort(stream []byte, lim int) bool {
+	for _, l := range bytes.Split(stream, []byte{'\n'}) {
+		if len(l) >= lim {
+			return false
+		}
+	}
+	return true
+}
+
+func evalC08Scan(f []string) Result {
+	stream := unhx(f[1])
+	rd := &scriptReader{data: stream, script: parseScanScript(f[2])}
+	sc := bufio.NewScanner(rd)
+	sc.Buffer(make([]byte, 0, atoi(f[3])), bufio.MaxScanTokenSize)
+	var toks []string
+	for sc.Scan() {
+		toks = append(toks, sc.Text())
+	}
+	impl := "toks=" + showNamesGo(toks) + ";err=" + showScanErr(sc.Err())
+	// The property, on what the reader really handed over: the lines of the bytes delivered,
+	// whatever the fragmentation; Err() = the error that ended the input (nil for io.EOF).
+	prefix := stream[:rd.pos]
+	if !c08LinesShort(prefix, bufio.MaxScanTokenSize) {
+		return Result{Impl: impl, Direct: "ok", Class: "scan-line-at-or-over-the-limit"}
+	}
+	want := "nil"
+	class := "scan-eof"
+	switch {
+	case rd.firstErr != nil && rd.firstErr != io.EOF:
+		want, class = showScanErr(rd.firstErr), "scan-read-error"
+	case rd.firstErr == nil && rd.stalled:
+		want, class = "noprogress", "scan-stall"
+	case rd.firstErr == nil:
+		return Result{Impl: impl, Direct: c07fail("scan-end", "the scanner stopped (%s) though the reader returned neither an error nor 101 empty reads", impl), Class: class}
+	}
+	direct := "ok"
+	if wantToks := c08Lines(prefix); !slices.Equal(toks, wantToks) && !(len(toks) == 0 && len(wantToks) == 0) {
+		direct = c07fail("scan-tokens", "tokens %q, want the lines %q of the %d bytes delivered", toks, wantToks, len(prefix))
+	} else if got := showScanErr(sc.Err()); got != want {
+		direct = c07fail("scan-err", "Err() is %s, want %s", got, want)
+	}
+	if len(prefix) == 0 {
+		class = "trivial-" + class + "-nothing-delivered"
+	}
+	return Result{Impl: impl, Direct: direct, Class: class}
+}
+
+// genScanStream: CR / LF / CRLF mixes, final unterminated line, empty stream; sometimes a hosts file.
+func genScanStream(rng *rand.Rand) []byte {
+	switch rng.IntN(10) {
+	case 0:
+		return nil
+	case 1, 2, 3:
+		return genHostsFile(rng)
+	}
+	var sb bytes.Buffer
+	for k := rng.IntN(24); k > 0; k-- {
+		sb.WriteString(pick(rng, "a", "b", "xyz", " ", "\n", "\n", "\r\n", "\r\n", "\r", "\r\r", "\n\n", "#c"))
+	}
+	return sb.Bytes()
+}
+
+func scriptEntryStr(n int, err string, cnt int) string {
+	s := fmt.Sprint(n)
+	if err != "" {
+		s += "/" + err
+	}
+	if cnt != 1 {
+		s += fmt.Sprintf("*%d", cnt)
+	}
+	return s
+}
+
+// genScanScript: a script for a stream of length n.  minChunk > 1 keeps the model fast on long lines.
+func genScanScript(rng *rand.Rand, n int, minChunk int) string {
+	var ents []string
+	add := func(k int, err string, cnt int) { ents = append(ents, scriptEntryStr(k, err, cnt)) }
+	zeros := func() {
+		// bursts of up to 100 empty reads never stall; 100 exactly is the boundary
+		add(0, "", pick(rng, 1, 1, 2, 3, 17, 99, 100, 100))
+	}
+	chunk := func(rest int) int {
+		return min(rest, minChunk+rng.IntN(pick(rng, 1, 3, 7, 7, 40, 5000)))
+	}
+	final := func(k int) {
+		switch rng.IntN(4) {
+		case 0:
+			add(k, "e", 1) // data together with io.EOF
+		case 1:
+			add(k, "", 1) // the exhausted script answers (0, io.EOF)
+		case 2:
+			add(k+rng.IntN(3), "e", 1) // asks for more than there is
+		default:
+			add(k, "", 1)
+			if rng.IntN(2) == 0 {
+				zeros()
+			}
+			add(0, "e", 1)
+		}
+	}
+	mode := rng.IntN(12)
+	switch {
+	case mode == 0: // whole
+		final(n)
+	case mode == 1 && minChunk == 1: // 1-byte reads
+		if n > 1 {
+			add(1, "", n-1)
+		}
+		final(min(n, 1))
+	case mode <= 7: // random chunks, empty reads in between
+		rest := n
+		for rest > 0 {
+			k := chunk(rest)
+			if k == rest {
+				break
+			}
+			add(k, "", 1)
+			rest -= k
+			if rng.IntN(4) == 0 {
+				zeros()
+			}
+		}
+		final(rest)
+	case mode <= 9: // error after k bytes, with or without data
+		stop := rng.IntN(n + 1)
+		rest := stop
+		for rest > 0 {
+			k := chunk(rest)
+			if k == rest && rng.IntN(2) == 0 {
+				break
+			}
+			add(k, "", 1)
+			rest -= k
+			if rng.IntN(6) == 0 {
+				zeros()
+			}
+		}
+		add(rest, fmt.Sprint(1+rng.IntN(3)), 1)
+		if rng.IntN(2) == 0 {
+			add(n-stop, "e", 1) // never read
+		}
+	default: // a stall: 101 or more empty reads after k bytes
+		stop := rng.IntN(n + 1)
+		rest := stop
+		for rest > 0 {
+			k := chunk(rest)
+			add(k, "", 1)
+			rest -= k
+		}
+		add(0, "", pick(rng, 101, 101, 102, 150, 250))
+		add(n-stop, "e", 1)
+	}
+	if len(ents) == 0 {
+		return "_"
+	}
+	return strings.Join(ents, ",")
+}
+
+func genC08Scan(rng *rand.Rand) string {
+	bufcap := pick(rng, 0, 0, 1, 2, 3, 16, 16, 4096, 70000)
+	if rng.IntN(150) == 0 {
+		// a line at the limit: 65534..65537 bytes before the LF / the end
+		var sb bytes.Buffer
+		sb.WriteString(pick(rng, "", "a\n", "1.2.3.4 x\r\n"))
+		sb.WriteString(strings.Repeat("y", bufio.MaxScanTokenSize-2+rng.IntN(4)))
+		sb.WriteString(pick(rng, "", "\n", "\r\n", "\nz"))
+		return "C08.std.scan " + hx(sb.Bytes()) + " " + genScanScript(rng, sb.Len(), 3000) + " " + fmt.Sprint(bufcap)
+	}
+	stream := genScanStream(rng)
+	minChunk := 1
+	if len(stream) > 2000 {
+		minChunk = 50
+	}
+	return "C08.std.scan " + hx(stream) + " " + genScanScript(rng, len(stream), minChunk) + " " + fmt.Sprint(bufcap)
+}
 
 // ---- destination sets
 
@@ -475,6 +769,8 @@ func evalC08(c string) Result {
 			toks = append(toks, sc.Text())
 		}
 		return Result{Impl: showNamesGo(toks), Direct: okIf(sc.Err() == nil, "scan", "scanner error %v", sc.Err()), Class: "trivial-std"}
+	case "C08.std.scan":
+		return evalC08Scan(f)
 	case "C08.parse":
 		return evalC08Parse(f)
 	case "C08.store":
@@ -637,7 +933,9 @@ func genC08(rng *rand.Rand, tier string) (cases []string) {
 		n = 120000
 	}
 	for i := 0; i < n; i++ {
-		switch rng.IntN(10) {
+		switch rng.IntN(12) {
+		case 10, 11:
+			cases = append(cases, genC08Scan(rng))
 		case 0:
 			cases = append(cases, "std.scanlines "+hx(genHostsFile(rng)))
 		case 1, 2, 3, 4:
@@ -657,6 +955,34 @@ func genC08(rng *rand.Rand, tier string) (cases []string) {
 func candsC08(c string) (res []string) {
 	f := strings.Split(c, " ")
 	switch f[0] {
+	case "C08.std.scan":
+		stream := unhx(f[1])
+		ents := strings.Split(f[2], ",")
+		mk := func(st []byte, es []string) string {
+			sc := "_"
+			if len(es) > 0 {
+				sc = strings.Join(es, ",")
+			}
+			return "C08.std.scan " + hx(st) + " " + sc + " " + f[3]
+		}
+		if f[2] != "_" {
+			for _, v := range dropEach(ents) {
+				res = append(res, mk(stream, v))
+			}
+			for i, e := range ents {
+				if j := strings.IndexByte(e, '*'); j >= 0 {
+					w := slices.Clone(ents)
+					w[i] = e[:j]
+					res = append(res, mk(stream, w))
+				}
+			}
+		}
+		if len(stream) > 0 {
+			res = append(res, mk(stream[:len(stream)/2], ents), mk(stream[:len(stream)-1], ents), mk(stream[1:], ents))
+		}
+		if f[3] != "0" {
+			res = append(res, "C08.std.scan "+f[1]+" "+f[2]+" 0")
+		}
 	case "C08.parse":
 		stream := unhx(f[4])
 		lines := strings.SplitAfter(string(stream), "\n")
